@@ -12,13 +12,17 @@ Trace == ndJsonDeserialize("trace.ndjson")
 VARIABLES l, obs, sc, viol
 ovars == <<l, obs, sc, viol>>
 
-IsHook(e) == SubSeq(e.ev, 1, 2) = "h:"
+\* hook-level events are skipped, except the few that carry facts no API-level event can (computed backoff delays)
+IsHook(e) == SubSeq(e.ev, 1, 2) = "h:" /\ e.ev \notin {"h:backoff.next"}
+Cfg(e) == [ObsInit EXCEPT !.cfgErrors = IF "errors" \in DOMAIN e.args THEN e.args.errors ELSE FALSE,
+                          !.cfgNoReconnect = IF "noreconnect" \in DOMAIN e.args THEN e.args.noreconnect ELSE FALSE,
+                          !.cfgHooks = IF "hooks" \in DOMAIN e THEN e.hooks ELSE FALSE]
 Tag(s, V) == {<<s, v[1], v[2], v[3]>> : v \in V}
 
 OInit == l = 1 /\ obs = ObsInit /\ sc = 0 /\ viol = {}
 ONext == /\ l <= Len(Trace)
          /\ LET e == Trace[l] IN
-            CASE e.ev = "reset"   -> obs' = ObsInit /\ sc' = e.sc /\ viol' = viol
+            CASE e.ev = "reset"   -> obs' = Cfg(e) /\ sc' = e.sc /\ viol' = viol
               [] e.ev = "Quiesce" -> obs' = obs /\ sc' = sc /\ viol' = viol \cup Tag(sc, Quiet(obs, e) \cup Always(obs))
               [] IsHook(e)        -> UNCHANGED <<obs, sc, viol>>
               [] OTHER            -> LET o2 == ObsStep(obs, e) IN obs' = o2 /\ sc' = sc /\ viol' = viol \cup Tag(sc, Always(o2))
